@@ -217,12 +217,31 @@ Proof.
   destruct (fp_cases fp Hfp) as [->|[->|[->|[->|[->| ->]]]]]; pow10; lia.
 Qed.
 
+Lemma frac_scaled_lo t : valid_time t = true -> frac_scaled t (fun _ => 0) 0 = Ok (frac_lo t).
+Proof.
+  intros Hv. pose proof (frac_hi_lt t Hv) as Hf. unfold frac_scaled, frac_lo, frac_hi in *.
+  destruct t as [h|h m|h m s|h m s f fp]; cbn [t_frac valid_time] in *; try reflexivity.
+  apply andb_true_iff in Hv as [Hv _]. apply andb_true_iff in Hv as [_ Hfp].
+  assert (6 <? fp = false) as -> by (unfold in_range in Hfp; lia).
+  rewrite N.add_0_r. assert (4294967295 <? f * 10 ^ (6 - fp) = false) as -> by lia. reflexivity.
+Qed.
+Lemma frac_scaled_hi t : valid_time t = true -> frac_scaled t (fun k => k - 1) 999999 = Ok (frac_hi t).
+Proof.
+  intros Hv. pose proof (frac_hi_lt t Hv) as Hf. unfold frac_scaled, frac_lo, frac_hi in *.
+  destruct t as [h|h m|h m s|h m s f fp]; cbn [t_frac valid_time] in *; try reflexivity.
+  apply andb_true_iff in Hv as [Hv _]. apply andb_true_iff in Hv as [_ Hfp].
+  assert (6 <? fp = false) as -> by (unfold in_range in Hfp; lia).
+  assert (Hk : 1 <= 10 ^ (6 - fp)) by (destruct (fp_cases fp Hfp) as [->|[->|[->|[->|[->| ->]]]]]; pow10; lia).
+  replace (f * 10 ^ (6 - fp) + (10 ^ (6 - fp) - 1)) with (f * 10 ^ (6 - fp) + 10 ^ (6 - fp) - 1) by lia.
+  assert (4294967295 <? f * 10 ^ (6 - fp) + 10 ^ (6 - fp) - 1 = false) as -> by lia. reflexivity.
+Qed.
+
 Lemma time_earliest_spec t :
   valid_time t = true ->
   time_earliest t = if no_leap_second t then Ok (time_lo t) else Err R_invalid_time_micro.
 Proof.
-  intros Hv. pose proof (frac_hi_lt t Hv) as Hf. unfold time_earliest, from_hms_micro_opt, time_lo, no_leap_second.
-  fold (frac_lo t).
+  intros Hv. pose proof (frac_hi_lt t Hv) as Hf. unfold time_earliest. rewrite frac_scaled_lo by exact Hv. cbn [bind].
+  unfold from_hms_micro_opt, time_lo, no_leap_second.
   destruct t as [h|h m|h m s|h m s f fp]; cbn [t_hour t_minute t_second odef valid_time] in *; inr.
   - assert (valid_hmsu h 0 0 (frac_lo (THour h)) = true) as -> by (unfold valid_hmsu; lia). reflexivity.
   - assert (valid_hmsu h m 0 (frac_lo (TMinute h m)) = true) as -> by (unfold valid_hmsu; lia). reflexivity.
@@ -238,8 +257,8 @@ Lemma time_latest_spec t :
   valid_time t = true ->
   time_latest t = if no_leap_second t then Ok (time_hi t) else Err R_invalid_time_micro.
 Proof.
-  intros Hv. pose proof (frac_hi_lt t Hv) as Hf. unfold time_latest, from_hms_micro_opt, time_hi, no_leap_second.
-  fold (frac_hi t).
+  intros Hv. pose proof (frac_hi_lt t Hv) as Hf. unfold time_latest. rewrite frac_scaled_hi by exact Hv. cbn [bind].
+  unfold from_hms_micro_opt, time_hi, no_leap_second.
   destruct t as [h|h m|h m s|h m s f fp]; cbn [t_hour t_minute t_second odef valid_time] in *; inr.
   - assert (valid_hmsu h 59 59 (frac_hi (THour h)) = true) as -> by (unfold valid_hmsu; lia). reflexivity.
   - assert (valid_hmsu h m 59 (frac_hi (TMinute h m)) = true) as -> by (unfold valid_hmsu; lia). reflexivity.
